@@ -29,7 +29,7 @@ def load():
     return ENV_MOD, Q_MOD
 
 
-OUTCOMES = ('ok', 'fail', 'raise', 'none', 'notpair', 'badstatus', 'badupdate')
+OUTCOMES = ('ok', 'fail', 'raise', 'none', 'notpair', 'badstatus', 'badupdate', 'nonfinal')
 
 
 class RunState:
@@ -95,6 +95,8 @@ def make_probe_class():
                 return upd, 'not-a-status'
             if out == 'badupdate':
                 return 42, _TaskStatus.DONE
+            if out == 'nonfinal':
+                return upd, _TaskStatus.PENDING
             raise AssertionError(out)
     return Probe
 
@@ -165,7 +167,10 @@ def execute(cfg, strategy, on_step=None, max_steps=None, attach=None):
     holder['backend'] = sched.backend
 
     def master():
-        return sched.schedule(env=env)
+        res = None
+        for _ in range(cfg.get('calls', 1)):
+            res = sched.schedule(env=env)
+        return res
 
     ctl = detsched.Controller(strategy, max_steps=max_steps or (60 + 40 * cfg['n'] + 10 * cfg['workers']) * 4, on_step=on_step)
     ctl.holder = holder
@@ -249,6 +254,7 @@ class Recorder:
         self.rs = rs
         self.events = []
         self.cur = {}
+        self.lastpc = {}
         self.execs_at_seen = {}
 
     def __call__(self, ctl):
@@ -268,16 +274,22 @@ class Recorder:
         q = backend.queue
         queue = [0 if x is None else x.idx for x in q.items]
         conds = getattr(ctl, 'conds', [])
-        cv = conds[0] if conds else None
+        cv = conds[-1] if conds else None
         threads = ctl.threads
         master = threads[0]
+        call = max(1, (len(threads) - 1 + nw - 1) // nw) if nw else 1
+        base = (call - 1) * nw          # workers of the call in progress are threads[base + 1 .. base + nw]
+        if call != getattr(self, 'call', 1):
+            self.cur = {}
+            self.lastpc = {}
+        self.call = call
 
         def owner_id(o):
             if o is None:
                 return 0
             if o is master:
                 return -1
-            return o.tid if hasattr(o, 'tid') else 99
+            return (o.tid - base) if hasattr(o, 'tid') else 99
         cv_owner = owner_id(cv.lock.owner) if cv else 0
         cv_wait = bool(cv and master in cv.waiters)
         cv_not = bool(cv and master in cv.notified)
@@ -303,11 +315,11 @@ class Recorder:
         wpc = []
         cur = []
         for w in range(1, nw + 1):
-            if w >= len(threads):
+            if base + w >= len(threads):
                 wpc.append('none')
                 cur.append(self.cur.get(w, 0))
                 continue
-            t = threads[w]
+            t = threads[base + w]
             if t.finished:
                 wpc.append('exited' if t.exc is None else 'dead')
             else:
@@ -322,10 +334,11 @@ class Recorder:
                 elif p[0] == 'acq':
                     wpc.append('notify' if p[1] == 'cv' else 'publish')
                 elif p[0] == 'task_done':
-                    wpc.append('taskdone')
+                    wpc.append('stopdone' if self.lastpc.get(w) in ('get', 'stopdone') else 'taskdone')
                 else:
                     wpc.append('other:%s' % (p,))
             cur.append(self.cur.get(w, 0))
+            self.lastpc[w] = wpc[-1]
         # history
         seen = []
         for i in range(1, n + 1):
@@ -336,7 +349,7 @@ class Recorder:
             if i not in self.execs_at_seen:
                 self.execs_at_seen[i] = {dd: rs.execs[dd] for dd in snap}
             seen.append([dict(d=dd, **view_of(snap[dd], dd, self.execs_at_seen[i][dd])) for dd in sorted(snap)])
-        self.events.append(dict(thr=tid, op=_opname(op), st=st, pay=pay, clk=clk, queue=queue, unfinished=q.unfinished,
+        self.events.append(dict(thr=(tid - base if tid > 0 else 0), op=_opname(op), st=st, pay=pay, clk=clk, queue=queue, unfinished=q.unfinished,
                                 mpc=mpc, wpc=wpc, cur=cur, cvOwner=cv_owner, cvWaiting=cv_wait, cvNotified=cv_not,
                                 seen=seen, execs=[rs.execs[i] for i in range(1, n + 1)]))
 
@@ -365,7 +378,7 @@ def record(cfg, strategy, max_steps=None, hook=None):
     trace = dict(cfg=dict(n=cfg['n'], workers=cfg['workers'], edges=[list(e) for e in cfg['edges']],
                           outcome=[cfg['outcome'].get(str(i), 'ok') for i in range(1, cfg['n'] + 1)],
                           init=[(cfg.get('init') or {}).get(str(i), 'ABSENT') for i in range(1, cfg['n'] + 1)],
-                          order=order),
+                          order=order, calls=cfg.get('calls', 1)),
                  events=events, verdict=ex.ctl.verdict, raised=repr(ex.raised) if ex.raised is not None else '',
                  schedule=[t for t, _ in ex.ctl.trace])
     return ex, trace
